@@ -77,3 +77,21 @@ func verifC13Repeat(n, shape, urlLen int) {
 	verifAssert(verifSameRules(a, keep), "c13: a result returned earlier is not modified by later queries")
 	verifAssert(engine.RulesCount == n || n > 1, "c13: queries do not change the engine")
 }
+
+// verifC13Rewrites: the getters of a DNS result are pure: asking twice gives the
+// same answer, and asking for the effective rewrites does not change what
+// DNSRewritesAll reports.
+func verifC13Rewrites(k int, nkinds int) {
+	rs := make([]*rules.NetworkRule, k)
+	for i := range rs {
+		rs[i] = rules.VerifRewriteRule(vn("r", i, ""), nkinds)
+	}
+	res := &DNSResult{NetworkRules: rs}
+	all1 := append([]*rules.NetworkRule(nil), res.DNSRewritesAll()...)
+	eff1 := append([]*rules.NetworkRule(nil), res.DNSRewrites()...)
+	all2 := res.DNSRewritesAll()
+	eff2 := res.DNSRewrites()
+	verifReach("c13.rewrites")
+	verifAssert(verifSameSeq(all1, all2), "c13: DNSRewritesAll is the same before and after DNSRewrites")
+	verifAssert(verifSameSeq(eff1, eff2), "c13: DNSRewrites called twice gives the same answer")
+}
